@@ -53,6 +53,19 @@ func GenConfig(t *rapid.T, isValue bool, simple bool) (Config, []proto.Message) 
 		}
 		cfg.Initial[id] = proto.Clone(alphabet[rapid.IntRange(0, 3).Draw(t, "initVal")])
 	}
+	if rapid.IntRange(0, 9).Draw(t, "populous") == 4 {
+		// a collection that is not tiny: a few dozen further records nobody writes to. Listing, seeding and id generation
+		// do not depend on how many items there are
+		extra := rapid.IntRange(14, 40).Draw(t, "populousN")
+		for i := 0; i < extra; i++ {
+			id := fmt.Sprintf("p%02d", i)
+			if fn != nil {
+				id = fn(id)
+			}
+			cfg.Initial[id] = proto.Clone(alphabet[i%4])
+		}
+		lib.Ev.Class("config:collection with more than 16 records")
+	}
 	if cfg.StaticRNG && rapid.Bool().Draw(t, "prefill") {
 		// occupy the first k ids the static RNG will produce (all 10 => exhaustion)
 		k := rapid.SampledFrom([]int{1, 3, 9, 10}).Draw(t, "prefillN")
